@@ -27,6 +27,44 @@ def _accept_one(modelrun, sc, r):
     return None
 
 
+_ORDER_CODES = ("S_cts_committed", "S_cts_locked", "S_cts_rolledback", "S_csl_commit", "S_csl_locks")
+_APPLY = ("prewrite_deliver", "commit_deliver", "resolve_deliver", "rollback_deliver")
+
+
+def _log_order_repair(modelrun, lines, tries=4):
+    """The gate logs `deliver` after the store call returns: a status read (CheckTxnStatus / CheckSecondaryLocks) can be logged
+    before the `deliver` line of the in-flight request whose effect it observed (same transaction, same key). If the acceptor
+    rejects such a read with a store-check code, the deliver line of a request of that transaction that was already sent and is
+    logged later is hoisted in front of the read and the trace is judged again (the store's answer shows that request had been
+    applied). Returns True if some such re-ordering is accepted."""
+    cur = list(lines)
+    for _ in range(tries):
+        rc, out = vlib.sh([modelrun], inp="trace\t0\n" + "\n".join(cur) + "\n", timeout=120)
+        f = next((l.split("\t") for l in out.splitlines() if l.startswith(("ACCEPT", "REJECT"))), None)
+        if f is None:
+            return False
+        if f[0] == "ACCEPT":
+            return True
+        if f[-1] not in _ORDER_CODES or not f[2].isdigit():
+            return False
+        i = int(f[2])
+        ev = cur[i].split("\t")
+        txn = ev[2] if len(ev) > 2 else None
+        moved = False
+        for j in range(i + 1, len(cur)):
+            g = cur[j].split("\t")
+            if g[0] in _APPLY and len(g) > 2 and g[2] == txn:
+                send = g[0].replace("_deliver", "_send")
+                # the request must have been sent before the read
+                if any(h.split("\t")[0] == send and h.split("\t")[1:3] == g[1:3] for h in cur[:i]):
+                    cur.insert(i, cur.pop(j))
+                    moved = True
+                    break
+        if not moved:
+            return False
+    return False
+
+
 def run_acceptor(traces, verdict, pid, max_report=3, exe=None):
     """traces: list of (scenario, result). Returns coverage dict. A rejected trace is reported as a violation with
     the trace as the failing input (the request stream broke a rule) — only if the acceptor exists."""
@@ -47,6 +85,7 @@ def run_acceptor(traces, verdict, pid, max_report=3, exe=None):
     accepted = set()
     reasons = {}
     unrepro = {}
+    repaired = {}
     for l in out.splitlines():
         f = l.split(None, 4) if not "\t" in l else l.split("\t")
         if not f:
@@ -59,6 +98,9 @@ def run_acceptor(traces, verdict, pid, max_report=3, exe=None):
             sc, r, lines = idx.get(f[1], (None, None, None))
             reason = f[-1]
             reasons[reason] = reasons.get(reason, 0) + 1
+            if lines is not None and reason in _ORDER_CODES and _log_order_repair(modelrun, lines):
+                repaired[reason] = repaired.get(reason, 0) + 1
+                continue
             if sc is not None and exe is not None and rej <= 12:
                 # a rejection is re-run (same scenario, alone) before it is reported: scheduling-dependent traces that do
                 # not reproduce in 3 further runs are counted, not reported (the outcome oracles judge every run anyway)
@@ -66,7 +108,7 @@ def run_acceptor(traces, verdict, pid, max_report=3, exe=None):
                 if not any(_accept_one(modelrun, sc, r2) == reason for r2 in again if not r2.get("fatal")):
                     unrepro[reason] = unrepro.get(reason, 0) + 1
                     continue
-            if rej - sum(unrepro.values()) <= max_report and sc is not None:
+            if rej - sum(unrepro.values()) - sum(repaired.values()) <= max_report and sc is not None:
                 verdict.violation({"kind": "request-stream-rule", "rule": reason, "rejected_event_index": f[2], "rejected_event": f[3:-1],
                                    "scenario": sc, "events": lines[: int(f[2]) + 1][-60:] if f[2].isdigit() else lines[-60:]})
     # final abstract state of the acceptor vs the real store's MVCC records (ties the per-transaction store abstraction)
@@ -129,7 +171,7 @@ def run_acceptor(traces, verdict, pid, max_report=3, exe=None):
                                        "what": "after an accepted trace the abstract per-transaction store state differs from the real store"}, has_input=False)
     if rc != 0 and acc + rej == 0:
         verdict.violation({"kind": "harness", "correspondence": "Percolator acceptor run", "error": out[-500:]}, has_input=False)
-    return {"traces_validated_against_impl": acc + rej, "acceptor_accepted": acc, "acceptor_rejected": rej, "acceptor_reject_reasons": reasons, "acceptor_rejections_not_reproduced": unrepro,
+    return {"traces_validated_against_impl": acc + rej, "acceptor_accepted": acc, "acceptor_rejected": rej, "acceptor_reject_reasons": reasons, "acceptor_rejections_not_reproduced": unrepro, "acceptor_log_order_repaired": repaired,
             "acceptor_state_vs_store_compared": cmp_n, "acceptor_state_vs_store_mismatches": cmp_bad}
 
 
